@@ -12,6 +12,8 @@ cd $WT || exit 2
 git checkout -q -- . ; git clean -fdq
 DEMO=$(find $SRC/demo -type f | head -1)
 BASE=$(basename $DEMO .txt)
+PKG=$(grep -m1 '^package ' $DEMO | awk '{print $2}' | sed 's/_test$//')
+[ "$PKG" = "state" ] || PKG=client
 TESTS=$(grep -ho '^func Test[A-Za-z0-9_]*' $DEMO | sed 's/func //' | paste -sd'|')
 log=/tmp/seedout/$P/$K.confirm.log; : > $log
 res() { echo "$1" | tee -a $log; }
@@ -25,17 +27,17 @@ f3=$(go test -vet=off -count=1 -timeout 180s ./... 2>&1 | grep -E '^--- FAIL' | 
 echo "suite failures run1=[$f1] run2=[$f2] run3=[$f3]" | tr '\n' ' ' >>$log; echo >>$log
 always=$(comm -12 <(echo "$f1") <(echo "$f2") | comm -12 - <(echo "$f3") | grep -v '^$')
 [ -n "$always" ] && { suite_ok=0; echo "consistently failing: $always" >>$log; }
-cp $DEMO client/$BASE
+cp $DEMO $PKG/$BASE
 dfail=0
 for i in 1 2; do
-  go test -vet=off -count=1 -timeout 120s -run "^($TESTS)\$" ./client >>$log 2>&1 || dfail=$((dfail+1))
+  go test -vet=off -count=1 -timeout 120s -run "^($TESTS)\$" ./$PKG >>$log 2>&1 || dfail=$((dfail+1))
 done
 git checkout -q -- . ; 
 dpass=0
 for i in 1 2; do
-  go test -vet=off -count=1 -timeout 120s -run "^($TESTS)\$" ./client >>$log 2>&1 && dpass=$((dpass+1))
+  go test -vet=off -count=1 -timeout 120s -run "^($TESTS)\$" ./$PKG >>$log 2>&1 && dpass=$((dpass+1))
 done
-rm -f client/$BASE; git clean -fdq
+rm -f $PKG/$BASE; git clean -fdq
 res "RESULT $P-$K suite_ok=$suite_ok demo_fail_with_patch=$dfail/2 demo_pass_without=$dpass/2 tests=$TESTS"
 if [ $suite_ok = 1 ] && [ $dfail = 2 ] && [ $dpass = 2 ]; then
   D=/verif/seeded/$P-$K; mkdir -p $D/demo
